@@ -13,12 +13,12 @@ ANCHORS = ["src/pylife/materiallaws/rambgood.py", "src/pylife/materiallaws/hooke
            "src/pylife/materiallaws/true_stress_strain.py"]
 SHARDS = {"quick": 4, "thorough": 16}
 WATCHDOG = {"quick": 900, "thorough": 3000}
-REQUIRED_CLASSES = {t: ["ro:n<0.08", "ro:n>0.3", "ro:n>0.5", "ro:zero_in_array", "ro:strain>0.02", "ro:elastic", "ro:negative", "ro:scalar", "ro:array",
+REQUIRED_CLASSES = {t: ["ro:n<0.08", "ro:n>0.3", "ro:n>0.5", "ro:zero_in_array", "ro:strain>0.02", "ro:elastic", "ro:negative", "ro:scalar", "ro:array", "ro:fixed_scalar_probes",
                         "hooke:nu<0", "hooke:nu>0.45", "hooke:1d", "hooke:plane_stress", "hooke:plane_strain", "hooke:3d", "true:negative"]
                     for t in ("quick", "thorough")}
 REQUIRED_MONITORS = ["ro:strain==formula", "ro:stress(strain(s))==s", "ro:strain(stress(e))==e", "ro:odd", "ro:strictly_increasing",
                      "ro:compliance==d_strain/d_stress", "ro:modulus==1/compliance", "ro:masing==2f(x/2)",
-                     "ro:delta_stress(delta_strain(x))==x", "ro:lower_hysteresis_meets_curve", "hooke:stress(strain(s))==s",
+                     "ro:delta_stress(delta_strain(x))==x", "ro:lower_hysteresis_meets_curve", "ro:scalar_probes==formula", "hooke:stress(strain(s))==s",
                      "hooke:plane_strain==3d(e33=0)", "hooke:plane_stress==3d(s33=0)", "hooke:G_and_K", "true_stress_strain"]
 RULE = ("seeded Ramberg-Osgood sets (E 50e3..250e3, K 200..4000, n 0.04..0.45) with arguments generated through the strain "
         "(|eps| <= 0.1: physically meaningful), scalar and array; Hooke sets (E, -1 < nu < 0.5) with random stress/strain states; "
@@ -128,6 +128,24 @@ def _ro(case, ctx, rng):
         lh = float(np.asarray(ro.lower_hysteresis(smax, smax)))
         ctx.check("ro:lower_hysteresis_meets_curve", abs(lh - float(np.asarray(ro.strain(smax)))) <= 1e-15 + 1e-13 * abs(lh), observed=lh,
                   expected=float(np.asarray(ro.strain(smax))))
+    # the same scalar arguments for every parameter set of the run (python float and numpy scalar): a result that depends on
+    # anything but (E, K, n, argument) - state shared between instances or calls - shows against the closed form
+    ctx.tag("ro:fixed_scalar_probes")
+    ok, bad = True, None
+    foil = RambergOsgood(E * 0.5, K * 1.5, min(0.9, n * 1.3))        # another material asked the same questions first (self-contained replay)
+    for sp in (50.0, 200.0, -125.0):
+        foil.strain(sp), foil.delta_strain(2 * sp), foil.tangential_compliance(sp), foil.lower_hysteresis(sp, abs(sp))
+    for sp in (50.0, 200.0, -125.0):
+        for conv in (float, np.float64):
+            x = conv(sp)
+            got = [float(np.asarray(ro.strain(x))), float(np.asarray(ro.delta_strain(conv(2 * sp)))),
+                   float(np.asarray(ro.tangential_compliance(x))), float(np.asarray(ro.lower_hysteresis(x, conv(abs(sp)))))]
+            exp = [N.ro_strain(sp, E, K, n), 2 * N.ro_strain(sp, E, K, n),
+                   1 / E + (abs(sp) / K) ** (1 / n - 1) / (n * K),
+                   N.ro_strain(abs(sp), E, K, n) - 2 * N.ro_strain((abs(sp) - sp) / 2, E, K, n)]
+            if not _close(got, exp, 1e-12, 1e-300):
+                ok, bad = False, {"argument": sp, "type": conv.__name__, "got": got, "expected": exp}
+    ctx.check("ro:scalar_probes==formula", ok, observed=bad, detail={"E": E, "K": K, "n": n})
     # scalar path
     ctx.tag("ro:scalar")
     e0 = float(eps_signed[len(eps) // 2])
